@@ -23,9 +23,71 @@ fn strat(max_ops: usize) -> impl Strategy<Value = Case> {
 		.prop_map(|(spec, ops, settle)| Case { spec, ops, settle })
 }
 
+fn jump_weights() -> OpWeights {
+	OpWeights { send: 34, claim: 8, fail: 4, deliver: 44, flush: 3, events: 10, forwards: 8, disconnect: 1, reconnect: 4, setfee: 1, setfee_jump: 7, timer: 1, async_toggle: 3, complete: 6, pump: 4, ..OpWeights::zero() }
+}
+
+/// fee changes of any size (the library's buffers only cover a doubling): the funder's balance is kept small in
+/// half of the cases so that a higher fee really bites
+fn jump_strat(max_ops: usize) -> impl Strategy<Value = Case> {
+	(world_spec(vec![Topology::Pair]), proptest::collection::vec(op_strategy(jump_weights()), 8..max_ops), proptest::bool::weighted(0.8), proptest::bool::weighted(0.5), 700u16..990).prop_map(|(mut spec, ops, settle, tight, push)| {
+		if tight {
+			spec.push_permille = vec![push];
+			spec.value_sat = vec![spec.value_sat[0].min(400_000)];
+		}
+		Case { spec, ops, settle }
+	})
+}
+
+/// The fundee has an HTLC awaiting the funder's revoke_and_ack and more of them waiting behind it when the funder
+/// announces a much higher fee; the messages then cross in a generated order.
+fn jump_template(max_ops: usize) -> impl Strategy<Value = Case> {
+	(
+		world_spec(vec![Topology::Pair]),
+		proptest::collection::vec(op_strategy(OpWeights { send: 6, claim: 3, deliver: 30, pump: 3, events: 4, ..OpWeights::zero() }), 0..6),
+		proptest::collection::vec(prop_oneof![(0u16..20_000).prop_map(Amt::Frac), (400_000u64..30_000_000).prop_map(Amt::Abs), Just(Amt::LimitMinus(0))], 2..6),
+		prop_oneof![600u32..3_000, 2_000u32..12_000, 5_000u32..40_000],
+		proptest::collection::vec(op_strategy(OpWeights { deliver: 60, send: 6, events: 6, pump: 2, complete: 3, ..OpWeights::zero() }), 4..max_ops),
+		700u16..995,
+		proptest::bool::weighted(0.7),
+	)
+		.prop_map(|(mut spec, warmup, amts, rate, tail, push, small)| {
+			// the funder (node 0) keeps little: a higher fee bites at once
+			spec.push_permille = vec![push];
+			if small {
+				spec.value_sat = vec![spec.value_sat[0].min(400_000)];
+			}
+			spec.max_accepted = spec.max_accepted.max(12);
+			spec.inflight_pct = 100;
+			let mut ops = warmup;
+			ops.push(Op::Pump);
+			for a in amts {
+				ops.push(Op::Send { route: 40_000, amt: a });
+			}
+			ops.push(Op::SetFeeJump { node: 0, rate });
+			ops.extend(tail);
+			Case { spec, ops, settle: true }
+		})
+}
+
+fn jump_oracle(c: &Case, ctx: &mut Ctx) -> CaseResult {
+	match oracle_with(c, ctx, true) {
+		Err(f) if f.oracle == "excused-update-race" => {
+			ctx.label("ended-by-update-race");
+			Ok(())
+		},
+		r => r,
+	}
+}
+
 fn oracle(c: &Case, ctx: &mut Ctx) -> CaseResult {
+	oracle_with(c, ctx, false)
+}
+
+fn oracle_with(c: &Case, ctx: &mut Ctx, jumps: bool) -> CaseResult {
 	let mut sim = c.spec.build(false);
 	let mut o = CommitOracle::new(&sim);
+	o.allow_update_race = jumps;
 	let mut tags: Vec<&'static str> = vec![];
 	for op in c.ops.iter() {
 		let tag = apply(&mut sim, &c.spec, op);
@@ -37,6 +99,7 @@ fn oracle(c: &Case, ctx: &mut Ctx) -> CaseResult {
 		o.step(&sim)?;
 		ctx.label(if quiet { "settled" } else { "not-quiescent" });
 	}
+	ctx.label_if(tags.contains(&"setfee-jump"), "fee-jump");
 	let st = &o.stats;
 	ctx.label(match c.spec.ctype {
 		CType::Static => "type:static_remote_key",
@@ -405,6 +468,17 @@ fn main() {
 		},
 		|| strat(45),
 		oracle,
+	);
+	c.part_with(
+		PartSpec {
+			name: "fee-jumps",
+			rule: "as pair-commitments, with fee changes of any size (253..40 000 sat/kw, up or down, far beyond the doubling the library's fee-spike buffer covers) and, in half of the cases, a funder that keeps little of the channel. Same oracles; a refusal (error message) is the protocol's own update_fee race, and ends the case without a verdict, only if the refused message crossed on the wire with an add / fee update of the refusing side (that update was emitted later than the refused message's sender's latest update, was still in flight then, or the link was cut in between); a refusal of a message whose sender had been told every update of the refusing side beforehand is a violation. Non-trivial: as pair-commitments, and a fee jump happened",
+			quick_cases: 1500,
+			thorough_cases: 90_000,
+			max_shrink: 600,
+		},
+		|| prop_oneof![3 => jump_strat(45).boxed(), 1 => jump_template(30).boxed()],
+		jump_oracle,
 	);
 	c.part_with(
 		PartSpec {
